@@ -7,7 +7,7 @@
  *
  * VSHIM_MAP  = "class=prefix;class=prefix;..."   first matching prefix wins
  * VSHIM_PLAN = "sel:op:when:action;..."
- *     sel    = class name | * | tracked (any class but other) | sub=<substring of path>
+ *     sel    = class name | * | tracked (any class but other) | sub=<substring of path> | path=<exact path>
  *     op     = open|read|write|fsync|trunc|alloc|rename|unlink|mkdir|link|utime|close|mut
  *              (mut = write,fsync,trunc,alloc,rename,unlink,mkdir,link,utime and creating/truncating opens)
  *     when   = n=<k> (k-th call matching sel+op, 1-based, process wide) | off=<lo>-<hi> | all
@@ -45,7 +45,7 @@ enum { A_ERR, A_SHORT, A_DELAY, A_SIGINT, A_SIGTERM, A_KILL_BEFORE, A_KILL_AFTER
 static const char *actname[] = { "err", "short", "delay", "sigint", "sigterm", "kill-before", "kill-after", "kill-mid" };
 
 struct rule {
-	char sel[64];
+	char sel[600];
 	int op;
 	int when; /* 0 all, 1 n=, 2 off= */
 	long n;
@@ -323,6 +323,9 @@ static int match(int op, int flags, const char *cls, const char *path, long long
 				continue;
 		} else if (!strncmp(r->sel, "sub=", 4)) {
 			if (!path || !strstr(path, r->sel + 4))
+				continue;
+		} else if (!strncmp(r->sel, "path=", 5)) {
+			if (!path || strcmp(path, r->sel + 5) != 0)
 				continue;
 		} else if (strcmp(r->sel, cls) != 0) {
 			continue;
